@@ -38,6 +38,13 @@ type OptPlan struct {
 	CheckLevels           bool  `json:"chk,omitempty"` // DebugCheck = DebugCheckLevels
 	ValueBlocks           bool  `json:"vb,omitempty"`
 	FilesCheck            bool  `json:"files,omitempty"` // compare the directory with the version at wait/restart steps
+	// NumDel / TombDense: Options.NumDeletionsThreshold and
+	// TombstoneDenseCompactionThreshold (percent); 0 = Pebble's defaults.
+	NumDel    int `json:"numdel,omitempty"`
+	TombDense int `json:"tombdense,omitempty"`
+	// ReadSampling: Options.ReadSamplingMultiplier (0 = default; small positive
+	// values make read-triggered compactions likely).
+	ReadSampling int `json:"rsm,omitempty"`
 }
 
 // IterOp is one iterator operation.
